@@ -10,3 +10,4 @@ import NostrRelay.Props.C10
 import NostrRelay.Props.C01
 import NostrRelay.Props.C02
 import NostrRelay.Props.C12
+import NostrRelay.Props.C11
